@@ -275,7 +275,38 @@ def replay_known(ctx):
             t = Table(columns=["a", "b"]).insert([[3, 1], [1, 2], [2, 3]]).index("a"); c = t.copy(); c.index("b")
             if [tuple(x) for x in t.where(a=1)] != [(1, 2)]: ctx.known_hit.setdefault(k["key"], k["what"])
 
+def failed_index_law(ctx):
+    """an index() call that FAILS (on a read-only view; on a column that cannot be ordered) and is survived by the caller leaves the table as it was:
+    every later where still returns what a row-by-row scan returns"""
+    from coba.results.core import Table, Missing
+    rng = ctx.rng
+    for _ in range(ctx.n(60, 600)):
+        n = rng.randrange(2, 9)
+        rows = [[rng.randrange(0, 4), rng.randrange(0, 4), rng.choice([0, 1, 2, None])] for _ in range(n)]
+        pre = rng.choice([[], ["a"], ["b"], ["b", "a"]]); how = rng.choice(["view", "unorderable", "unorderable-view"])
+        case = dict(what="index() that fails", rows=rows, indexed_before=pre, how=how); ctx.count("failed-index:" + how, repr(case), True)
+        try:
+            t = Table(columns=["a", "b", "c"]); t.insert([[Missing if v is None else v for v in r] for r in rows])
+            if pre: t.index(*pre)
+            target = t
+            if "view" in how: target = t.where(a={"<=": 3})
+            cols = ["c", "a"] if how.startswith("unorderable") else [rng.choice(["a", "b"])] + (["c"] if rng.random() < 0.3 else [])
+            failed = None
+            try: target.index(*cols)
+            except Exception as e: failed = errname(e)
+            now = [[canon(x) for x in r] for r in target]
+            for kw, arg in (("a", rng.randrange(0, 4)), ("b", rng.randrange(0, 4)), ("a", [rng.randrange(0, 4), rng.randrange(0, 4)]), ("c", rng.choice([0, 1, 2]))):
+                got = [[canon(x) for x in r] for r in target.where(**{kw: arg})]
+                j = "abc".index(kw)
+                exp = [r for r in now if (r[j] in arg if isinstance(arg, list) else r[j] == arg)]
+                if got != exp:
+                    ctx.fail(["where", "wrong-rows", "after-failed-index" if failed else "after-index"], "index%s %s; where(%s=%r) on rows %s (indexes %s) -> %s, a scan gives %s" % (
+                        tuple(cols), "raised %s" % failed if failed else "succeeded", kw, arg, now, list(target.indexes), got, exp), case); break
+        except Exception as e:
+            ctx.fail(["raises", errname(e), "failed-index-law"], "raised %s: %s on %s" % (errname(e), str(e)[:100], case), case)
+
 def run(ctx):
+    failed_index_law(ctx)
     check(ctx, corpus(), "corpus")
     check(ctx, [gen_seq(ctx.rng) for _ in range(ctx.n(1500, 20000))], "random-seq")
     check(ctx, [gen_big(ctx.rng) for _ in range(ctx.n(300, 4000))], "big-sparse")
